@@ -12,6 +12,7 @@ Update37 == \E p \in Packets : PutUpdate(p.signer, p)
 Query37  == \E k \in Keys : Query(k)
 Next37 == Noop37 \/ Update37 \/ Query37
 Spec37 == Init /\ [][Next37]_vars
+Gen37 == Init /\ [][Noop37 \/ Update37]_vars           \* generator: publishes only
 
 \* --- C36: every single record / every pair of records, right or wrong signer, good or bad signature
 RecU == {[zl |-> z, rel |-> r, ty |-> t, v |-> 1] : z \in Zls, r \in Rels, t \in RecTypes}
@@ -37,12 +38,12 @@ Other(k) == CHOOSE o \in Keys : o # k
 P36T == {[signer |-> s, sigOk |-> ok, ts |-> t, pl |-> 1, recs |-> S] :
            <<s, S>> \in {x \in Keys \X UNION {Th(k, Other(k)) : k \in Keys} : x[2] \in Th(x[1], Other(x[1]))},
            ok \in BOOLEAN, t \in Tss}
-\* timestamps of verified packets are distinct per key (equal timestamps are C37's business)
-Fresh(k, p) == \A q \in accepted[k] : q.ts # p.ts
 Rejected36 == \E k \in Keys, p \in Packets : PutRejected(k, p)
-Noop36     == \E k \in Keys, p \in Packets : Fresh(k, p) /\ PutNoop(k, p)
-Update36   == \E k \in Keys, p \in Packets : Fresh(k, p) /\ PutUpdate(k, p)
+Noop36     == \E k \in Keys, p \in Packets : PutNoop(k, p)
+Update36   == \E k \in Keys, p \in Packets : PutUpdate(k, p)
 Query36    == \E k \in Keys : Query(k)
 Next36 == Rejected36 \/ Noop36 \/ Update36 \/ Query36
 Spec36 == Init /\ [][Next36]_vars
+Gen36 == Init /\ [][Rejected36 \/ Noop36 \/ Update36]_vars
+GenTable36 == Init /\ [][Rejected36 \/ Update36]_vars   \* single puts on the empty server
 =============================================================================
